@@ -51,7 +51,7 @@ ParMerge(pred, s) ==
         CellOf(s.par[lv][q], IF q <= Len(pred[lv]) THEN pred[lv][q] ELSE JunkCell)]]
 
 SameVal(a, b) == a = b \/ (IsJunkVal(a) /\ IsJunkVal(b))
-SameFile(f, g) == f.sz = g.sz /\ f.mt = g.mt /\ Len(f.b) = Len(g.b) /\ \A i \in 1..Len(f.b) : SameVal(f.b[i], g.b[i])
+SameFile(f, g) == f.sz = g.sz /\ (f.mt = g.mt \/ f.mt = AnyMt) /\ Len(f.b) = Len(g.b) /\ \A i \in 1..Len(f.b) : SameVal(f.b[i], g.b[i])
 SameFs(a, b) == \A d \in D : DOMAIN a[d] = DOMAIN b[d] /\ \A n \in DOMAIN a[d] : IsUnrec(n) \/ SameFile(a[d][n], b[d][n])
 
 ToSet(s) == {s[i] : i \in 1..Len(s)}
@@ -236,13 +236,14 @@ SyncStep ==
            okF == Ev.state.fs = fs1
            L0 == ClearPast(C)
            newc == LoggedC(Ev.state)
+           fullrebuild == a.opts.force_full /\ a.opts.bstart = 0 /\ a.opts.bcount = 0 /\ a.opts.stop = 0
        IN /\ Follow(Ev.state, r.par)
           /\ diag' = IF okC /\ okP /\ okO /\ okF THEN <<>>
                      ELSE <<"Sync", l, [okC |-> okC, okP |-> okP, okO |-> okO, okF |-> okF],
                             IF ~okC THEN DiffC(r.C, LoggedC(Ev.state)) ELSE <<>>, IF ~okP THEN r.par ELSE <<>>, r.out, Ev.out>>
-          /\ clean' = (Ev.out.exit = "ok" /\ CleanSynced(newc, Ev.state.fs) /\ (~dmg \/ a.opts.force_full))
+          /\ clean' = (Ev.out.exit = "ok" /\ CleanSynced(newc, Ev.state.fs) /\ (~dmg \/ fullrebuild))
           /\ snap' = IF Ev.out.exit = "ok" THEN Ev.state.fs ELSE snap
-          /\ dmg' = (dmg /\ ~(Ev.out.exit = "ok" /\ a.opts.force_full))
+          /\ dmg' = (dmg /\ ~(Ev.out.exit = "ok" /\ fullrebuild))
           \* the content of a file at the scan that (re)created its record
           /\ ghost' = [d \in D |-> [n \in DOMAIN newc.cf[d] |->
                           IF n \in Fresh(L0, fs, d) /\ n \in DOMAIN fs[d] THEN fs[d][n].b
@@ -292,23 +293,25 @@ SelOf(a) == [d \in D |-> ToSet(a.sel[d])]
 CheckStep ==
     /\ IsEvent("Check")
     /\ LET a == Ev.args
-           r == CheckResult(C, fs, par, PresentOf(a), a.audit)
+           r == CheckResultR(C, fs, par, PresentOf(a), a.audit, a.range)
            okO == r.exit = Ev.out.exit /\ r.derr = PairSet(Ev.out.derr) /\ (a.audit \/ r.perr = PairSet(Ev.out.perr))
            okS == LoggedC(Ev.state) = C /\ Ev.state.fs = fs /\ ParAgrees(par, Ev.state)
        IN /\ Follow(Ev.state, par)
           /\ diag' = IF okO /\ okS THEN <<>> ELSE <<"Check", l, [okO |-> okO, okS |-> okS], r, Ev.out>>
           /\ pviol' = C12_Frame("Check", Ev.state) \o
-                      (IF ~ParityInvalid(C) /\ NoDifference(C, fs) /\ \A lv \in PresentOf(a) : Len(par[lv]) >= AllocatedMax(C)
+                      (IF ~ParityInvalid(C) /\ NoDifference(C, fs) /\ (\A lv \in PresentOf(a) : Len(par[lv]) >= AllocatedMax(C))
+                          /\ a.range.bstart = 0 /\ a.range.bcount = 0
                        THEN C04_Check(C, fs, par, a, Ev.out) ELSE <<>>) \o
                       (IF afterfix /\ Ev.out.rc # 0 THEN <<<<"C01", "check-after-fix-finds-errors", Ev.out>>>> ELSE <<>>)
           \* a full check without any error ends a damage episode
-          /\ dmg' = (dmg /\ ~(~a.audit /\ Ev.out.rc = 0 /\ PresentOf(a) = Levels))
+          /\ dmg' = (dmg /\ ~(~a.audit /\ Ev.out.rc = 0 /\ PresentOf(a) = Levels /\ a.range.bstart = 0 /\ a.range.bcount = 0))
           /\ UNCHANGED <<clean, snap, ghost, afterfix>>
 
 FixStep ==
     /\ IsEvent("Fix")
     /\ LET a == Ev.args
-           r == FixResult(C, fs, par, PresentOf(a), SelOf(a))
+           r == FixRange(C, fs, par, PresentOf(a), SelOf(a), a.range)
+           whole == a.range.bstart = 0 /\ a.range.bcount = 0
            okF == SameFs(r.fs, Ev.state.fs)
            okP == ParAgrees(r.par, Ev.state)
            okC == LoggedC(Ev.state) = C
@@ -321,9 +324,10 @@ FixStep ==
                      ELSE IF okF /\ okP /\ okC /\ okO THEN <<>>
                      ELSE <<"Fix", l, [okF |-> okF, okP |-> okP, okC |-> okC, okO |-> okO],
                             IF ~okF THEN r.fs ELSE <<>>, IF ~okP THEN r.par ELSE <<>>, r.out, Ev.out>>
-          /\ pviol' = C12_Frame("Fix", Ev.state) \o C05_Fix(C, ghost, fs, Ev.state, Ev.out, SelOf(a)) \o
-                      (IF c01 THEN C01_Fix(C, fs, par, Ev.state, Ev.out) ELSE <<>>)
-          /\ afterfix' = c01
+          /\ pviol' = C12_Frame("Fix", Ev.state) \o
+                      (IF whole THEN C05_Fix(C, ghost, fs, Ev.state, Ev.out, SelOf(a)) ELSE <<>>) \o
+                      (IF c01 /\ whole THEN C01_Fix(C, fs, par, Ev.state, Ev.out) ELSE <<>>)
+          /\ afterfix' = (c01 /\ whole)
           /\ UNCHANGED <<clean, snap, dmg, ghost>>
 
 (* a sync or scrub during which the operating system reported an error (EIO / ENOSPC injected by the shim) on the
